@@ -12,6 +12,7 @@ CONSTANTS
   Consumers = {"c1", "c2"}
   ThirdParty = {}
   WithDrain = TRUE
+  Acts = {"planadd", "plandel", "buy", "adv", "auto", "block", "epoch", "stale"}
   PriceVar = {0}
 INIT Init
 NEXT Next
